@@ -748,6 +748,14 @@ pub fn run_property(rc: &RunCtx, prop: &Property) -> PropertyResult {
         reports.push(rep);
     }
 
+    // 3. byte-level entry points: corpus replay (both tiers) and libFuzzer campaigns (thorough)
+    for rep in crate::fuzzrun::run(rc, prop) {
+        if let Some(v) = &rep.violation {
+            violations.push(v.clone());
+        }
+        reports.push(rep);
+    }
+
     write_evidence(rc, prop, &reports, violations.len(), t0.elapsed().as_secs_f64());
     for v in &violations {
         println!(
